@@ -191,6 +191,7 @@ class Patches:
         self.log = []
         self.owner = {}          # id(instance) -> protocol name (current world)
         self.saved = []
+        self.raising = {}        # protocol name -> pyatv.exceptions class name its implementations raise when called
         self.genuine = {}        # (class, member) -> bool: the oracle's own "actually implements"
         self.done = set()
         self.members = {}        # iface name -> [member names]
@@ -251,8 +252,15 @@ class Patches:
         log, owner, iface = self.log, self.owner, base.__name__
         ret = 10.0 if name == "volume" else None
 
+        raising = self.raising
+
         def note(self_):
-            log.append((owner.get(id(self_), "?unregistered"), iface, name))
+            who = owner.get(id(self_), "?unregistered")
+            log.append((who, iface, name))
+            if who in raising:          # the implementation itself fails at call time
+                from pyatv import exceptions
+
+                raise getattr(exceptions, raising[who])("raised by the implementation of " + who)
             return ret
 
         if isinstance(original, property):
@@ -451,7 +459,7 @@ class World:
         except exceptions.NotSupportedError:
             return "!" if not log else "!after:" + "+".join(r[0] for r in log)
         except Exception as e:  # observation, not a crash
-            return "err:" + type(e).__name__
+            return "err:" + type(e).__name__ + ("@" + "+".join(r[0] for r in log) if log else "")
         if not log:
             return "dropped"
         if len(log) > 1 or log[0][1:] != (iface, name):
@@ -532,7 +540,9 @@ def judge(ctx, world, holders, observed, case, kind):
                 ctx.note("oracle:play_url-gate-closed-not-judged")
                 continue
         if got != want:
-            how = "" if not case.get("env") else f" after {case['env']['publisher']} reported the values then passed as arguments"
+            how = "" if not case.get("env") else (
+                f" while the implementations of {case['env']['publisher']} raise {case['env']['raises']} when called"
+                if case["env"].get("raises") else f" after {case['env']['publisher']} reported the values then passed as arguments")
             ctx.fail(f"{kind}:{key}:{scen_key(world.sc)}:{holders.get(iface) or '-'}" + (":env" if case.get("env") else ""),
                      dict(case, member=key), got, want,
                      f"{key} with {'+'.join(S)} connected ({scen_key(world.sc)}), holder {holders.get(iface) or 'none'}{how}: "
@@ -570,7 +580,15 @@ def run_static(ctx, patches, scenarios, full_env):
             rounds.append((None, (pub, k)))
             rounds.append((None, (pub, k)))                      # the same call a second time
             rounds.append((TEXT_ORDER[(k + 1) % 5], (pub, k)))   # and while somebody holds a takeover
-        for t, pub in rounds:
+        rounds = [r + (None,) for r in rounds]
+        # the implementations of one connected protocol fail at call time (NotSupportedError /
+        # ProtocolError raised by their own code): the error must reach the caller and no other
+        # protocol may execute the call
+        for k, who in enumerate(world.S if (full_env or not world.fail) else []):
+            rounds.append((None, None, (who, "NotSupportedError")))
+            rounds.append((None, None, (who, "ProtocolError")))
+            rounds.append((TEXT_ORDER[(k + 2) % 5], None, (who, "NotSupportedError")))
+        for t, pub, raises in rounds:
             release = None
             if pub is not None:
                 world.publish(*pub)
@@ -579,10 +597,21 @@ def run_static(ctx, patches, scenarios, full_env):
                 if status != "ok":
                     ctx.disagree({"scenario": sc, "t": t}, status, "ok", where="takeover of all interfaces")
                     continue
-            table = world.table(variants=pub is None)
+            if raises is not None:
+                patches.raising[raises[0]] = raises[1]
+            try:
+                table = world.table(variants=pub is None and raises is None)
+            finally:
+                patches.raising.clear()
             if release:
                 release()
             env = None if pub is None else {"publisher": pub[0], "volume": world.env["volume"]}
+            if raises is not None:
+                # normal form: "X" = executed by X alone and X's error reached the caller
+                who, kind = raises
+                raw = "!after:" + who if kind == "NotSupportedError" else f"err:{kind}@{who}"
+                table = {k: (who if v == raw else ("error-swallowed:" + who if v == who else v)) for k, v in table.items()}
+                env = {"publisher": who, "volume": None, "raises": kind}
             obs.append((world, t, env, table))
     lines = sorted({f"table {set_bits(w.S)} {t or '-'} {1 if w.video else 0}" for w, t, _e, _tb in obs})
     answers = dict(zip(lines, ctx.lean(lines)))
@@ -599,9 +628,9 @@ def run_static(ctx, patches, scenarios, full_env):
         plain = next(p for p in TEXT_ORDER if p in S)
         if env is not None:
             # state-update rounds: one case per round (every member was invoked and judged above)
-            ctx.case([scen_key(sc), t, env["publisher"], "all-members"], True)
-            ctx.note("calls-after-state-update", len(table))
-            ctx.note("args:reused-from-state-update")
+            ctx.case([scen_key(sc), t, env["publisher"], env.get("raises"), "all-members"], True)
+            ctx.note("calls-while-implementation-raises" if env.get("raises") else "calls-after-state-update", len(table))
+            ctx.note("args:default" if env.get("raises") else "args:reused-from-state-update")
             continue
         for key, got in table.items():
             nontrivial = got != plain
